@@ -10,10 +10,13 @@ results = {}
 for b in batches:
     try:
         for line in open(b, errors="replace"):
-            m = re.match(r"(\S+/C\d+_out/m\d) (C\d+) rc=(\d+) (\d+)s (.*?) ## (.*)", line)
+            m = re.match(r"(\S+/C\d+_out/m\d|\S*seeded/C\d+_m\d) (C\d+) rc=(\d+) (\d+)s (.*?) ## (.*)", line)
             if m:
                 d, prop, rc, secs, viol, det = m.groups()
-                key = os.path.basename(os.path.dirname(d))[:3] + "_" + os.path.basename(d)
+                if "_out/" in d:
+                    key = os.path.basename(os.path.dirname(d))[:3] + "_" + os.path.basename(d)
+                else:
+                    key = os.path.basename(d)
                 kind = "pass"
                 if rc != "0":
                     kind = "violation-no-failing-input-found" if "no-failing-input-found" in viol else "violation-with-replay-input"
